@@ -52,6 +52,9 @@ def run_cvc5(smt2, timeout_s, strings=False):
         os.unlink(path)
 
 
+CROSS = {"on": False, "tlimit_s": 10.0}     # thorough tier: every VC z3 discharges is also given to cvc5
+
+
 def check_valid(pc, goal, timeout_ms=20000, use_cvc5=True, extra=None):
     """Is (and pc) => goal valid?  -> dict(result='unsat'|'sat'|'unknown', solver, seconds, model)"""
     s = z3.Solver()
@@ -88,6 +91,11 @@ def check_valid(pc, goal, timeout_ms=20000, use_cvc5=True, extra=None):
             res["result"] = "sat"
             res["solver"] = "cvc5-1.0.3 (after z3 unknown; no model extracted)"
             res["model"] = {}
+    if r == z3.unsat and CROSS["on"] and use_cvc5 and os.path.exists(CVC5):
+        try:
+            res["cross"] = run_cvc5("(set-logic ALL)\n" + s.to_smt2(), CROSS["tlimit_s"])
+        except Exception:
+            res["cross"] = "unknown"
     return res
 
 
